@@ -92,6 +92,7 @@ void AsmContext::init()
   cpu_list_index = -1;
 
   address           = 0;
+  segment           = SEGMENT_CODE;
   instruction_count = 0;
   code_count        = 0;
   data_count        = 0;
